@@ -19,6 +19,26 @@ def modelStr {α} (f : α → String) : Outcome α → String
 
 def symOf (s : RawSym) : Outcome DSymData := s.toSym
 
+/-! ### comparison up to isomorphism over the base
+
+The property fixes a toroidal / pseudo-toroidal cover only up to isomorphism over the input symbol:
+the numbering of its sheets is the numbering of the rows of a coset table (found by the harmless-
+rewrite study: a breadth-first renumbering of the sheets in `covers.rs` is invisible to every clause
+of C15).  The model's cover and the implementation's are therefore compared up to an isomorphism
+over the base (`SpecC05.isoOver`); when they agree the implementation's own tokens are echoed as the
+model payload, otherwise the model's payload is printed and the orchestrator reports the
+disagreement.  `drop` = number of leading tokens that must agree literally (the found-flag of `ptc`). -/
+def toksOf (s : String) : Array String := ((s.splitOn " ").filter (· != "")).toArray
+
+def isoEcho (g : G) (drop : Nat) (model : String) (out : Array String) : String :=
+  let impl := joinToks out.toList
+  if model == impl then model else
+  let mt := toksOf model
+  if mt.size ≤ drop || out.size ≤ drop || mt.extract 0 drop != out.extract 0 drop then model else
+  match run P.rawSym (mt.extract drop mt.size), run P.rawSym (out.extract drop out.size) with
+  | some m, some c => if DSymVerif.SpecC05.isoOver g (specG m) (specG c) then impl else model
+  | _, _ => model
+
 def handler : Handler := fun op inp out =>
   let bad := ("-", fail "driver-cannot-parse-input")
   match op with
@@ -30,6 +50,7 @@ def handler : Handler := fun op inp out =>
         | .ok d => D3.toroidalCover d
         | .err => .err
         | .panic => .panic)
+      let m := if isPanic out then m else isoEcho (specG s) 0 m out
       if isPanic out then (m, check (clauses2d (specG s) none))
       else
         match run (do let c ← P.rawSym; let e ← P.atEnd; if e then pure c else failure) out with
@@ -47,6 +68,7 @@ def handler : Handler := fun op inp out =>
         | .err => .err
         | .panic => .panic)
       let corpus := op == "ptc_corpus"
+      let m := if isPanic out || m == "-" then m else isoEcho (specG s) 1 m out
       if isPanic out then (m, check (clauses3d (specG s) none corpus))
       else
         match run (do
